@@ -3,6 +3,7 @@ package harness
 import (
 	"os"
 	"runtime"
+	"strings"
 	"testing"
 	"time"
 )
@@ -62,8 +63,9 @@ func TestFamily(t *testing.T) {
 	}
 	from := EnvInt("VERIF_FROM", 0)
 	budget := time.Duration(EnvInt("VERIF_WALL_S", 8)) * time.Second
+	only := os.Getenv("VERIF_ONLY") // development aid: run only the scenarios whose name contains this string
 	for i, sc := range scs {
-		if i < from {
+		if i < from || (only != "" && !strings.Contains(sc.Name, only)) {
 			continue
 		}
 		RunScenario(t, out, i, sc, budget)
